@@ -264,10 +264,10 @@ Proof.
 Qed.
 (* fifth guard, explicit labels: the j-th observable acts on a qubit labelled None *)
 Lemma pp_idle_explicit i l o j q :
-  pp_labels i = Some l -> pp_obs i = Some o -> j < length (pp_support i) -> In q (nth j (pp_support i) []) ->
+  pp_labels i = Some l -> pp_obs i = Some o -> o <> [] -> j < length (pp_support i) -> In q (nth j (pp_support i) []) ->
   nth q l None = None -> api_partition_problem i = Refused.
 Proof.
-  intros Hl Ho Hj Hq Hn. unfold api_partition_problem. do 4 apply andthen_rif_refused. rewrite Hl.
+  intros Hl Ho Hne Hj Hq Hn. destruct o as [|o0 o']; [congruence|]. unfold api_partition_problem. do 4 apply andthen_rif_refused. rewrite Hl.
   unfold pcq_loop. do 2 apply andthen_rif_refused. unfold pp_support_eff. rewrite Ho.
   now rewrite (idle_observable_true l _ j q Hj Hq Hn).
 Qed.
@@ -280,10 +280,10 @@ Proof.
 Qed.
 (* fifth guard, automatic labels: the j-th observable acts on a qubit that no instruction touches *)
 Lemma pp_idle_auto i o j q :
-  pp_labels i = None -> pp_obs i = Some o -> j < length (pp_support i) -> In q (nth j (pp_support i) []) ->
+  pp_labels i = None -> pp_obs i = Some o -> o <> [] -> j < length (pp_support i) -> In q (nth j (pp_support i) []) ->
   q < pp_nq i -> touched (pp_insts i) q = false -> api_partition_problem i = Refused.
 Proof.
-  intros Hl Ho Hj Hq Hlt Ht. unfold api_partition_problem. do 4 apply andthen_rif_refused. rewrite Hl.
+  intros Hl Ho Hne Hj Hq Hlt Ht. destruct o as [|o0 o']; [congruence|]. unfold api_partition_problem. do 4 apply andthen_rif_refused. rewrite Hl.
   unfold pp_support_eff. rewrite Ho.
   now rewrite (idle_observable_true _ _ j q Hj Hq (auto_label_none _ _ _ Hlt Ht)).
 Qed.
@@ -716,6 +716,11 @@ Proof.
   unfold api_decompose, dq_run, dq_validate, api_validate_qpd.
   destruct (dq_groups (dq_two i) (dq_circ i) (dq_ids i)) as [[]| |]; simpl; congruence.
 Qed.
+Lemma validate_cases i : ids_in_range (dq_circ i) (dq_ids i) -> dq_validate i = Proceeds \/ dq_validate i = Refused.
+Proof.
+  intro H. unfold dq_validate, api_validate_qpd. apply andthen_cases; [now apply dq_groups_cases|].
+  apply andthen_cases; apply rif_cases.
+Qed.
 Lemma dq_map_count i ms :
   dq_validate i = Proceeds -> dq_maps i = Some ms ->
   length (dq_ids i) <> length ms -> api_decompose i = Refused.
@@ -772,6 +777,37 @@ Lemma dq_frame_no_maps i : dq_maps i = None -> dq_final i = dq_circ i.
 Proof.
   intro H. unfold dq_final, dq_run, dq_stage3. rewrite H.
   destruct (dq_validate i) as [[]| |]; reflexivity.
+Qed.
+(* the same with the weaker premise "all indices in range" (then the validation either passes or refuses) *)
+Lemma dq_map_count_r i ms :
+  ids_in_range (dq_circ i) (dq_ids i) -> dq_maps i = Some ms -> length (dq_ids i) <> length ms -> api_decompose i = Refused.
+Proof.
+  intros H1 H2 H3. destruct (validate_cases i H1) as [V | V];
+    [now apply (dq_map_count i ms) | now apply decompose_of_validate_refused].
+Qed.
+Lemma dq_map_range_r i ms j k b n bid z :
+  ids_in_range (dq_circ i) (dq_ids i) -> dq_maps i = Some ms ->
+  j < length (dq_ids i) -> In k (nth j (dq_ids i) []) -> nth_error (dq_circ i) k = Some (DQ b n bid) ->
+  nth j ms None = Some z -> (z < 0 \/ Z.of_nat n <= z)%Z -> api_decompose i = Refused.
+Proof.
+  intros H1 H2 Hj Hk E Hz Hr. destruct (validate_cases i H1) as [V | V];
+    [eapply dq_map_range; eauto | now apply decompose_of_validate_refused].
+Qed.
+Lemma dq_map_none_r i ms j k b n bid :
+  ids_in_range (dq_circ i) (dq_ids i) -> dq_maps i = Some ms ->
+  j < length (dq_ids i) -> In k (nth j (dq_ids i) []) -> nth_error (dq_circ i) k = Some (DQ b n bid) ->
+  nth j ms None = None -> api_decompose i = Refused.
+Proof.
+  intros H1 H2 Hj Hk E Hz. destruct (validate_cases i H1) as [V | V];
+    [eapply dq_map_none; eauto | now apply decompose_of_validate_refused].
+Qed.
+Lemma dq_unset_no_maps_r i k b n :
+  ids_in_range (dq_circ i) (dq_ids i) -> dq_maps i = None -> nth_error (dq_circ i) k = Some (DQ b n None) ->
+  api_decompose i = Refused /\ dq_final i = dq_circ i.
+Proof.
+  intros H1 H2 E. split;
+    [|unfold dq_final, dq_run, dq_stage3; rewrite H2; destruct (dq_validate i) as [[]| |]; reflexivity].
+  destruct (validate_cases i H1) as [V | V]; [now apply (dq_unset_no_maps i k b n) | now apply decompose_of_validate_refused].
 Qed.
 (* everything up to and including the map-id pre-validation leaves the argument untouched *)
 Lemma dq_frame_partial i :
